@@ -583,8 +583,13 @@ class PipeServer(Pipe):
         self.entities = [self.server]
         if m == "dynamic" and cfg.get("knob"):
             def set_limit(arg):
+                # arg: int -> set_limit(arg); ["up", n] -> scale_up(n); ["down", n] -> scale_down(n)
                 before = self.server.concurrency
-                self.server.concurrency_model.set_limit(arg)
+                model = self.server.concurrency_model
+                if isinstance(arg, (list, tuple)):
+                    (model.scale_up if arg[0] == "up" else model.scale_down)(arg[1])
+                else:
+                    model.set_limit(arg)
                 if self.server.concurrency < before:
                     obs.lowered.add(obs.now())
 
